@@ -35,7 +35,8 @@ def check_profile(rname, wv, a, b, res=None, num=None):
     pL, pR = np.asarray(disc.pL[0], float), np.asarray(disc.pR[0], float)
     exact = a + b * mesh.xf
     sc = max(abs(a) + abs(b) * np.abs(mesh.xf).max(), 1e-300)
-    tol = K * EPS * sc + (1e-19 / abs(b) if b else 0.0)
+    # regularised limiters: L(s,s) = s / (1 + 1e-20/(2 s^2)); the face value is off by (dx/2) x 1e-20/(2|s|)
+    tol = K * EPS * sc + (1e-19 * max(1.0, float(np.max(mesh.vol()))) / abs(b) if b else 0.0)
     site = "C11/%s/%s" % (rname.replace(":", "-"), "constant" if b == 0 else "linear")
     if b == 0:
         fl = range(0, n + 1)
@@ -74,7 +75,7 @@ def check_seam(rname, wv, a, b, res=None, num=None):
     out = []
     exact = a + b * mesh.xf[0]
     sc = abs(a) + abs(b) * (np.abs(mesh.xf).max() + L)
-    tol = K * EPS * sc + 1e-19 / abs(b)
+    tol = K * EPS * sc + 1e-19 * max(1.0, float(np.max(mesh.vol()))) / abs(b)
     for side in ("right-state", "left-state"):
         u = np.full(n, a)
         if side == "right-state":      # from cell 0: needs cells n-1, 0, 1
@@ -183,6 +184,43 @@ def check_stencil(rname, n, a, L, x0, res=None):
     return out
 
 
+INT_DATA = {3: [(0, 1, 0), (1, 2, 3), (5, -2, 4)], 5: [(0, 0, 1, 0, 0), (0, 1, 2, 3, 4), (3, 1, 4, 1, 5), (7, 7, -2, -2, 0)],
+            8: [(0, 0, 0, 1, 0, 0, 0, 0), (0, 1, 2, 3, 4, 5, 6, 7), (3, 1, 4, 1, 5, 9, 2, 6)]}
+
+
+def check_int_data(rname, wv, res=None):
+    """integer-valued cell data handed over as int64/int32 arrays: the face states (and the operator) are those of the same values as floats"""
+    mesh = space.mesh_from_widths(wv, -1.0)
+    n = len(wv)
+    model = space.convection.model(1.0)
+    out = []
+    for vals in INT_DATA[n]:
+        ref = None
+        for dt in (float, np.int64, np.int32):
+            disc = space.modeldisc.fvm(model, mesh, space.recon(rname))
+            with np.errstate(all="ignore"):
+                r = np.asarray(disc.rhs(space.field.fdata(model, mesh, [np.array(vals, dtype=dt)]))[0], float).copy()
+            got = (np.asarray(disc.pL[0], float).copy(), np.asarray(disc.pR[0], float).copy(), r)
+            if res is not None:
+                res.evals += 1
+                res.nontrivial += 1
+            if ref is None:
+                ref = got
+            elif not all(np.array_equal(x, y, equal_nan=True) for x, y in zip(got, ref)):
+                out.append(("C11/%s/integer-typed-data" % rname.replace(":", "-"), "%s widths %r cell values %r as %s: left/right face states %r / %r, as float64 %r / %r" % (
+                    rname, wv, vals, np.dtype(dt).name, got[0].tolist(), got[1].tolist(), ref[0].tolist(), ref[1].tolist())))
+                break
+    return out
+
+
+def shard_int(rname):
+    res = core.Res()
+    for wv in ((1.0, 1.0, 1.0), (0.5, 2.0, 1.0), (1.0,) * 5, (0.5, 1.0, 2.0, 1.0, 0.5), (0.3,) * 8, (0.5, 1.0, 2.0, 1.0, 0.5, 2.0, 2.0, 1.0)):
+        for s_, w in check_int_data(rname, wv, res):
+            res.violation(s_, w, {"kind": "int", "recon": rname, "widths": list(wv)})
+    return res
+
+
 def check_2d(rname, nx, ny, res=None):
     kap = space.recon_kappa(rname)
     model = space.euler.euler2d()
@@ -248,7 +286,7 @@ def shard_profiles(arg):
     # with the shared object the shard-level re-execution below reports it.
     shared = space.recon(rname)
     hist = []
-    for wv0 in space.width_vectors(n):
+    for wv0 in list(space.width_vectors(n)) + [w for w in space.ODD_SCALE_WIDTHS if len(w) == n]:
       for scale, profiles in ((1.0, list(itertools.product((0.0, 2.0, 5.0), (0.0, 1.0, -3.0)))), (0.3, [(0.1, 0.7), (-1.3, -0.9)]),
                               (1.0, GENTLE), (0.3, GENTLE[:1])):
         wv = tuple(scale * x for x in wv0)      # 0.3: faces, centres and values are not dyadic, every operation rounds
@@ -316,6 +354,7 @@ def run(ctx):
     ctx.pmap("linear-and-constant-profiles", shard_profiles, [(r, n) for n in ns[::-1] for r in space.X1_ALL])
     ctx.pmap("extrapol1-adjacent-values", shard_e1, [1, 2, 3, 4])
     ctx.pmap("kappa-stencil-1d", shard_stencil, space.X1_UNLIMITED)
+    ctx.pmap("integer-typed-cell-data", shard_int, space.X1_ALL)
     ctx.pmap("face-states-2d", shard_2d, [(r, nx, ny) for r in space.X2_ALL for nx in range(1, 5) for ny in range(1, 5)])
 
 
@@ -330,6 +369,8 @@ def replay(case):
         return check_seam(case["recon"], tuple(case["widths"]), case["a"], case["b"])
     if k == "e1":
         return check_extrapol1(tuple(case["widths"]), tuple(case["idx"]), case["bc"])
+    if k == "int":
+        return check_int_data(case["recon"], tuple(case["widths"]))
     if k == "stencil":
         return check_stencil(case["recon"], case["n"], case["a"], case["L"], case["x0"])
     return check_2d(case["recon"], case["nx"], case["ny"])
